@@ -389,6 +389,40 @@ func genC13(c *Ctx) {
 		c.mark("counter-large:" + ops)
 		c.count(fmt.Sprintf("counter_large_2^%d", e))
 	}
+	// units beyond any real transaction (4- and 5-byte length prefixes, 2^28 and 2^35): counter arithmetic only,
+	// against the closed form computed with an independent varint length
+	for _, around := range []int{1<<28 - 1, 1 << 28, 1<<28 + 4321, 1 << 30, 1<<35 - 1, 1 << 35} {
+		for delta := 0; delta <= 1; delta++ {
+			l0 := compactLen(r, 3000)
+			prefix := l0 + len(uvarint(uint64(l0)))
+			l1 := around
+			if around != 1<<28 && around != 1<<28-1 && around != 1<<35 && around != 1<<35-1 {
+				l1 = alignedTxLen(prefix, around, delta)
+			}
+			l2 := alignedTxLen(prefix+l1+len(uvarint(uint64(l1))), 300+r.Intn(300), delta)
+			cnt := share.NewCompactShareCounter()
+			ops := ""
+			total := 0
+			for j, l := range []int{l0, l1, l2} {
+				if j > 0 {
+					ops += ","
+				}
+				ops += "a" + s(l)
+				before := cnt.Size()
+				d := cnt.Add(l)
+				total += l + len(uvarint(uint64(l)))
+				rem := total
+				if total >= 474 {
+					rem = (total - 474) % 478
+				}
+				c.check(cnt.Size()-before == d && cnt.Size() == refCompactNeeded(total) && cnt.Remainder() == rem,
+					"CompactShareCounter", "size/remainder/increment differ from the closed form for a very long unit", map[string]any{"ops": ops})
+			}
+			c.add("counter", ops)
+			c.mark("counter-huge:" + ops)
+			c.count("counter_huge")
+		}
+	}
 	// prediction vs encoding for blobs (both share versions)
 	nss := blobNamespaces(r, 3)
 	var blens []int
@@ -471,6 +505,20 @@ func genC18(c *Ctx) {
 	set := nsStructured(r)
 	for i := 0; i < 20*c.scale; i++ {
 		set = append(set, r.Bytes(29))
+	}
+	// version-0 values that no constructor builds but AddInt (carry out of the 10 user bytes) and
+	// Share.Namespace() produce: non-zero bytes inside the 18-byte prefix; in pairs whose last 10 bytes are
+	// equal, or ordered the other way round than their prefixes
+	for i := 0; i < 6; i++ {
+		a := make([]byte, 29)
+		copy(a[19:], r.Bytes(10))
+		b := append([]byte{}, a...)
+		a[1+r.Intn(18)] = byte(1 + r.Intn(255))
+		set = append(set, a, b)
+		d := append([]byte{}, a...)
+		d[28] ^= 0x55
+		d[1+r.Intn(18)] ^= byte(1 + r.Intn(255))
+		set = append(set, d)
 	}
 	sgn := func(x int) int {
 		if x < 0 {
